@@ -6,6 +6,7 @@ import re
 import errno
 from .exceptions import ExceptionPexpect, EOF, TIMEOUT
 from .expect import Expecter, searcher_string, searcher_re
+from .utils import select_ignore_interrupts
 
 PY3 = (sys.version_info[0] >= 3)
 text_type = str if PY3 else unicode
@@ -123,6 +124,21 @@ class SpawnBase(object):
         # The buffer may be trimmed for efficiency reasons.  This is the
         # untrimmed buffer, used to create the before attribute.
         self._before = self.buffer_type()
+
+    def _write_all(self, fd, b):
+        """Write all of the bytes b to the file descriptor fd and return how
+        many were written.  A descriptor that asyncio reads from has been made
+        non-blocking, so a large write may be accepted only in part: wait until
+        the descriptor takes more instead of dropping the rest."""
+        written = 0
+        while True:
+            try:
+                written += os.write(fd, b[written:])
+            except BlockingIOError:
+                pass
+            if written >= len(b):
+                return written
+            select_ignore_interrupts([], [fd], [])
 
     def _log(self, s, direction):
         if self.logfile is not None:
